@@ -8,7 +8,7 @@
      dump    the serial numbers of all beacons in the database
      prop    one Propagator.Run: the (egress interface, beacon) pairs handed to senders
    C25 is an only-if statement: only its clauses are monitors (VERIF-BAD).  "Allowed but not stored /
-   not sent", and the stronger loop reading that counts the local AS, are VERIF-DRIFT.          *)
+   not sent" is VERIF-DRIFT.          *)
 EXTENDS BeaconStoreOps, TLC, Json
 
 Trace == ndJsonDeserialize("trace.ndjson")
@@ -79,18 +79,20 @@ Prop ==
           ELSE LET nbr == (CHOOSE y \in x : TRUE).nbr IN
                IF AsLoop(Append(s.hops, nbr)) THEN "prop:as-loop"
                ELSE IF ~Cfg.pIsdLoop /\ IsdLoop(Append(s.hops, nbr)) THEN "prop:isd-loop"
+               \* the propagated beacon carries the local AS entry between the beacon's ASes and the neighbour
+               ELSE IF AsLoop(Append(Append(s.hops, Cfg.local), nbr)) THEN "prop:as-loop-through-the-local-as"
+               ELSE IF ~Cfg.pIsdLoop /\ IsdLoop(Append(Append(s.hops, Cfg.local), nbr))
+                    THEN "prop:isd-loop-through-the-local-as"
                ELSE ""
         bads == {i \in 1..Len(R.sends) : bad(i) # ""} IN
     IF bads # {} THEN Bad(bad(CHOOSE i \in bads : TRUE))
     ELSE /\ \A i \in 1..Len(R.sends) :
               LET s == R.sends[i]
                   nbr == (CHOOSE y \in Intf(Ifs, s.eg) : TRUE).nbr IN
-              /\ (~MayPropagateStrong(s.hops, Cfg.local, nbr, Cfg.pIsdLoop)
-                     => Drift("prop:loop-through-the-local-AS"))
               /\ (~\E e \in held : e.k = s.k /\ 8 \in e.usage) => Drift("prop:sent-without-prop-usage")
          /\ \A e \in {h \in held : 8 \in h.usage} :
               \A y \in {z \in Ifs : z.lt = IF Cfg.core THEN 1 ELSE 3} :
-                 (MayPropagate(e.hops, y.nbr, Cfg.pIsdLoop) /\
+                 (MayPropagate(e.hops, Cfg.local, y.nbr, Cfg.pIsdLoop) /\
                   ~\E i \in 1..Len(R.sends) : R.sends[i].k = e.k /\ R.sends[i].eg = y.id)
                     => Drift("prop:not-sent-although-allowed")
          /\ Keep
